@@ -282,7 +282,11 @@ func runC11(c C11Case) *Result {
 func TestC11(t *testing.T) {
 	runSpec(t, Spec[C11Case]{ID: "C11", Gen: func(t *rapid.T) C11Case {
 		c := C11Case{Blocks: genC07(t).Blocks}
-		c.High = genHigh(t, tierLimits().maxLeaves)
+		total := 0
+		for _, b := range c.Blocks {
+			total += b.Add
+		}
+		c.High = genHigh(t, total)
 		return c
 	}, Run: runC11})
 }
